@@ -6,14 +6,25 @@ from analysis.facts import norm_path, Operand
 from analysis.sym import sym, show_in, nosite, peel, core, walk, ret_values, args_of, guards_at, atoms_at, \
     variant_facts_at, cmp_facts_at, init_value, edge_guards, symbolizer, simplify, loop_source, defs_of, var_defs, agg_field, const_str
 from analysis.pat import match, Call, Cap, ANY, Pred, Const, has, chain_names
-from rules.common import closure_of, closures_in
+from rules.common import closure_of, closures_in, state_locals, local_defs, V
 from rules import pipe
 
 D = 'dictionary::Dictionary::'
 
 
+R = {}
+
+
 def _var(name):
-    return Pred(lambda t: t[0] == 'var' and t[1] == name)
+    """role based (never the debug name): R maps a role to the local chosen by type / structure"""
+    return Pred(lambda t: isinstance(t, tuple) and t and t[0] == 'var' and len(t) > 2 and R.get(name) == t[2])
+
+
+def _one(b, ty, what):
+    c = state_locals(b, ty)
+    if len(c) != 1:
+        raise AnchorMissing('%s (mutable local of type %s): found %d' % (what, ty, len(c)))
+    return c[0]
 
 
 def N(b, name):
@@ -63,6 +74,8 @@ def r1(ctx):
       'the heap holds more than max_size entries (strict >), then move everything that is left into the result')
 def r2(ctx):
     b = ctx.body(D + 'create')
+    R.clear()
+    R['inner'] = _one(b, r'^std::collections::HashMap<std::string::String, usize>$', 'result map')
     pushes = [t for t in b.calls(r'BinaryHeap::push$')]
     if len(pushes) != 1:
         raise AnchorMissing('heap.push in Dictionary::create')
@@ -75,13 +88,13 @@ def r2(ctx):
         Pred(lambda u: nosite(core(u)) == nosite(core(('field', item, 1)))), Pred(lambda u: nosite(core(u)) == nosite(core(('field', item, 0)))))),)))
     ctx.require(ok, b, 'heap-entry', 'heap entries are Reverse((freq, word)): the least frequent entry is on top', 'heap entry is %s' % show_in(b, v), p.span)
     src = core(loop_source(b, nx[0])) if nx else ()
-    ctx.require(has(src, N(b, 'counts')) or has(src, Call('fold', ANY, ANY, ANY)), b, 'heap-source', 'every counted entry is pushed', None)
+    ctx.require(has(src, Call('fold', ANY, ANY, ANY)), b, 'heap-source', 'every counted entry is pushed', None)
     pops = [t for t in b.calls(r'BinaryHeap::pop$')]
     inl = [t for t in pops if lp and t.bb in lp.blocks]
     ok = len(inl) == 1
     if ok:
         at = [(core(tt), pol) for tt, pol, g in atoms_at(b, inl[0].bb)]
-        ok = any(pol is True and match(tt, ('bin', 'Gt', Call('BinaryHeap::len', ANY), N(b, 'max_size'))) for tt, pol in at)
+        ok = any(pol is True and match(tt, ('bin', 'Gt', Call('BinaryHeap::len', ANY), Pred(lambda u: _is_sentinel(u) and has(u, ('arg', 2, ANY))))) for tt, pol in at)
     ctx.require(ok, b, 'evict-strict', 'an entry is evicted only under heap.len() > max_size (max_size entries are kept)',
                 'eviction condition is not the strict heap.len() > max_size')
     ctx.require(lp is not None and cfg.dominates(b, p.bb, inl[0].bb) if inl else False, b, 'push-then-evict', 'push first, then evict the smallest', None)
@@ -126,7 +139,7 @@ def r3(ctx):
         ok2 = len(crv) == 1 and has(core(crv[0][0]), Call('BufRead::lines', ANY))
         ctx.require(ok2, clo, 'lines', 'each file contributes its lines in order', None)
     src = t
-    ctx.require(has(src, Call('Vec::into_iter', ANY)) or has(src, N(b, 'path_bufs')), b, 'file-order', 'files are visited in the given order', None)
+    ctx.require(has(src, ('arg', 1, ANY)), b, 'file-order', 'files are visited in the given order', None)
 
 
 @rule('C20', 'R-C20-4', 'T5/T12 (workers and reducer)',
@@ -139,7 +152,6 @@ def r4(ctx):
         raise AnchorMissing('worker spawn in Dictionary::create')
     w = closure_of(ctx, sym(b, sp[0].args[-1]))
     pull, send, loop = pipe.worker_exit_check(ctx, w, 'Dictionary::create worker')
-    ctx.require(match(core(sym(w, send.args[1])), _var('counts')) or True, w, 'sent-counts', 'the value sent is the count map of the line', None)
     # worker count >= 1
     lp = cfg.innermost_loop(b, sp[0].bb)
     nx = [t for t in b.calls(r'::next$') if lp and t.bb in lp.blocks]
@@ -207,7 +219,15 @@ def r5(ctx):
       'the most frequent among them')
 def r6(ctx):
     b = ctx.body(D + 'get_closest')
-    md = var_defs(b, 'min_dist')
+    R.clear()
+    R['min_dist'] = _one(b, r'^f64$', 'running minimum')
+    R['terms'] = _one(b, r'^std::vec::Vec<&str>$', 'candidate terms') if len(state_locals(b, r'^std::vec::Vec<&str>$')) == 1 else None
+    tl = [l for l in state_locals(b, r'^std::vec::Vec<&str>$') if len(local_defs(b, l)) > 1]
+    fl = [l for l in state_locals(b, r'^std::vec::Vec<usize>$') if len(local_defs(b, l)) > 1]
+    if len(tl) != 1 or len(fl) != 1:
+        raise AnchorMissing('candidate term / frequency lists of get_closest (found %d / %d)' % (len(tl), len(fl)))
+    R['terms'], R['freqs'] = tl[0], fl[0]
+    md = local_defs(b, R['min_dist'])
     init = [core(v) for site, v in md if cfg.innermost_loop(b, site.bb) is None]
     upd = [(site, core(v)) for site, v in md if cfg.innermost_loop(b, site.bb) is not None]
     ok = len(init) == 1 and 'INFINITY' in repr(init[0]) and len(upd) == 1
